@@ -76,13 +76,33 @@ Definition close_shape_ok : bool :=
   before KSetClosing KRpcRequest src_Channel_close &&
   in_finally KSetClosed 0 src_Channel_close.
 
+Fixpoint drop_until (k : callid) (l : list tok) : list tok :=
+  match l with
+  | [] => []
+  | t :: r => if is_call k t then r else drop_until k r
+  end.
+Fixpoint tok_index (x : tok) (l : list tok) : option nat :=
+  match l with
+  | [] => None
+  | t :: r => if tok_eqb x t then Some 0%nat
+              else match tok_index x r with Some n => Some (S n) | None => None end
+  end.
+(* after the test `k` the call `c` happens before anything is raised *)
+Definition rechecked_before_raise (k c : callid) (l : list tok) : bool :=
+  match tok_index (TCall c) (drop_until k l), tok_index TRaise (drop_until k l) with
+  | Some i, Some j => Nat.ltb i j
+  | _, _ => false
+  end.
+
 (* ---- C07: the reason is recorded before the channel reads as closed; the
         caller looks at the reasons again once it sees the channel closed ---- *)
 Definition chclose_shape_ok : bool :=
   once KAppendExc src_Channel_close_channel && once KSetClosed src_Channel_close_channel &&
   before KAppendExc KSetClosed src_Channel_close_channel &&
   before KConnWriteFrame KAppendExc src_Channel_close_channel &&
-  has_sublist [TCall KTestClosed; TIf; TCall KCheckExceptions] src_Channel_check_for_errors tok_eqb &&
+  (* ... both the channel's and the connection's *)
+  rechecked_before_raise KTestClosed KCheckExceptions src_Channel_check_for_errors &&
+  rechecked_before_raise KTestClosed KCheckErrors src_Channel_check_for_errors &&
   before KCheckExceptions KTestClosed src_Channel_check_for_errors.
 
 (* ---- C10: number chosen, registered and opened under Connection.lock ---- *)
